@@ -16,13 +16,12 @@ Models: `Exa.Index` (M-Index: `index()`, `__eq__`, `__hash__` of INET / Label / 
 what the object keeps of them, what `pack_nlri` returns). The registries and the framing constants
 are generated from /repo (`Generated/Registry.lean`).
 
-Strength. The index part is a FINDING: `index_injective` (the full statement) is false of the
-code (`index_not_injective`, three collision shapes, each replayed on the real classes by the
-harness); `index_injective_partial` is what holds, `index_fixed_injective` is the full statement
-for the repaired encoding. `hash_respects_eq` is true for INET and false for Label / IPVPN
-(`hash_breaks_eq_label`). The framing part is full at framing level for every registered family;
-the value-level codecs of the ~20 non-IP route types and of the attributes are covered by the
-registry-driven correspondence only (DESIGN section 8, C15: partial).
+Strength. Index / equality / hash: full (`index_injective`, `route_index_injective`,
+`hash_respects_eq`, `eq_iff_index`) for the model of the code after commit 202850b; the collisions
+of the earlier encoding (finding F15 and its two siblings, and the Label / IPVPN hash that
+disagreed with `==`) are kept as examples and corpus cases. Framing: full at framing level for
+every registered family; the value-level codecs of the ~20 non-IP route types and of the
+attributes are covered by the registry-driven correspondence only (DESIGN section 8, C15: partial).
 -/
 namespace Exa.Props.C15
 open Exa Exa.Index Exa.Framing Exa.Generated.Registry
@@ -33,116 +32,74 @@ open Exa Exa.Index Exa.Framing Exa.Generated.Registry
 theorem eq_iff_index (a b : IpNlri) : nlriEq a b = true ↔ index a = index b := by
   simp [nlriEq]
 
-/-- **Equal INET routes have equal hashes**: the hashed bytes are the index without its
-    fixed-length family prefix. -/
-theorem hash_respects_eq_inet (a b : IpNlri) (ha : wf a = true) (hb : wf b = true)
-    (ka : a.kind = .inet) (kb : b.kind = .inet) (h : nlriEq a b = true) : hashKey a = hashKey b := by
-  have h' := (eq_iff_index a b).1 h
-  rw [index_inet_hashKey a ka, index_inet_hashKey b kb] at h'
+/-- **`index_injective` (full statement): routes that differ in family, path identifier, prefix or
+    route distinguisher never share an index.** Any family, path-id or none, any mask, any prefix
+    bytes, any label stack, RD or none; no side condition. (Labels are not in the property's list
+    and `Label.index` / `IPVPN.index` leave them out: two routes that differ only in labels are
+    the same route with another label binding, and are `==`.) -/
+theorem index_injective (a b : IpNlri) (ha : wf a = true) (hb : wf b = true) (hk : a.kind = b.kind)
+    (h : index a = index b) : key a = key b :=
+  index_key a b (wf_iff a ha) (wf_iff b hb) hk h
+
+/-- The same for `Route.index()` (the RIB key), which only prepends the family once more. -/
+theorem route_index_injective (a b : IpNlri) (ha : wf a = true) (hb : wf b = true) (hk : a.kind = b.kind)
+    (h : routeIndex a = routeIndex b) : key a = key b := by
   have wa := wf_iff a ha
   have wb := wf_iff b hb
-  exact (fam_split wa.afi wa.safi wb.afi wb.safi h').2.2
+  unfold routeIndex at h
+  exact index_key a b wa wb hk (fam_split wa.afi wa.safi wb.afi wb.safi h).2.2
 
+/-- **`hash_respects_eq` (full statement): equal routes have equal hashes**, for the three classes:
+    Label and IPVPN hash their index; INET hashes its `_packed` behind the sentinel, which the
+    index determines. -/
+theorem hash_respects_eq (a b : IpNlri) (ha : wf a = true) (hb : wf b = true) (hk : a.kind = b.kind)
+    (h : nlriEq a b = true) : hashKey a = hashKey b := by
+  have h' := (eq_iff_index a b).1 h
+  cases hka : a.kind with
+  | inet =>
+    exact inet_hashKey_of_index a b (wf_iff a ha) (wf_iff b hb) hka (by rw [← hk, hka]) h'
+  | label =>
+    have hkb : b.kind = .label := by rw [← hk, hka]
+    simp [hashKey, hka, hkb, h']
+  | vpn =>
+    have hkb : b.kind = .vpn := by rw [← hk, hka]
+    simp [hashKey, hka, hkb, h']
+
+/-- Equal keys give equal indexes (so `==` is exactly "same family, path-id, prefix, RD"). -/
+theorem index_of_key (a b : IpNlri) (ha : wf a = true) (hb : wf b = true) (hk : a.kind = b.kind)
+    (h : key a = key b) : index a = index b := by
+  rw [index_eq_uniform a (wf_iff a ha), index_eq_uniform b (wf_iff b hb)]
+  simp only [key, Key.mk.injEq] at h
+  obtain ⟨e1, e2, e3, e4, e5, e6⟩ := h
+  simp [indexU, rdBits, rdFlag, hk, e1, e2, e3, e4, e5, e6]
+
+/-! ### The collisions of the encoding before commit 202850b (finding F15), kept as regression
+    cases: each pair collided under `indexOld` and is told apart by `index`. The same pairs are
+    `corpus/C15/index-*.json` and are replayed on the real classes on every run. -/
+
+/-- IPv6 `1:2:3:4::/72` without path-id, and `6c65:6448:1:2:3:4::/98` with path-id `b'disa'`. -/
+def f15a : IpNlri := ⟨.inet, 2, 1, none, [], none, 72, [0, 1, 0, 2, 0, 3, 0, 4, 0]⟩
+def f15b : IpNlri :=
+  ⟨.inet, 2, 1, some disa, [], none, 98, [108, 101, 100, 72, 0, 1, 0, 2, 0, 3, 0, 4, 0]⟩
+/-- Label: path-id 0.0.0.0 (`b'no-pi'`) `/100` against path-id `b'no-p'` `/105`. -/
+def nopiA : IpNlri := ⟨.label, 2, 4, some [0, 0, 0, 0], [], none, 100, [0, 1, 0, 2, 0, 3, 0, 4, 0, 5, 0, 6, 0]⟩
+def nopiB : IpNlri := ⟨.label, 2, 4, some nop, [], none, 105, [100, 0, 1, 0, 2, 0, 3, 0, 4, 0, 5, 0, 6, 0]⟩
+/-- IPVPN built without an RD `/72` against RD `0.2.0.3:4` with `::/8`. -/
+def rdA : IpNlri := ⟨.vpn, 2, 128, none, [], none, 72, [0, 1, 0, 2, 0, 3, 0, 4, 0]⟩
+def rdB : IpNlri := ⟨.vpn, 2, 128, none, [], some [0, 1, 0, 2, 0, 3, 0, 4], 8, [0]⟩
 /-- 10.0.0.0/24 with label 100 and with label 200 (`Label`, no ADD-PATH). -/
 def labA : IpNlri := ⟨.label, 1, 4, none, [0, 6, 65], none, 24, [10, 0, 0]⟩
 def labB : IpNlri := ⟨.label, 1, 4, none, [0, 12, 129], none, 24, [10, 0, 0]⟩
 
-/-- **FINDING: `hash_respects_eq` is false for Label / IPVPN.** The index leaves the label stack
-    out, the hash covers `_packed` which contains it: two labelled routes to the same prefix are
-    `==` and hash differently (a `set` keeps both). -/
-theorem hash_breaks_eq_label :
-    wf labA = true ∧ wf labB = true ∧ nlriEq labA labB = true ∧ hashKey labA ≠ hashKey labB := by decide
-
-/-- What holds for all three classes: equal indexes, equal label stacks, away from the ambiguous
-    path identifiers and with the RD present on both sides or on neither → equal hashes. -/
-theorem hash_respects_eq_partial (a b : IpNlri) (ha : wf a = true) (hb : wf b = true) (hk : a.kind = b.kind)
-    (hl : a.labels = b.labels)
-    (hda : a.path ≠ some disa) (hdb : b.path ≠ some disa) (hna : a.path ≠ some nop) (hnb : b.path ≠ some nop)
-    (hr : a.rd.isSome = b.rd.isSome) (h : nlriEq a b = true) : hashKey a = hashKey b := by
-  have hkey := index_key a b (wf_iff a ha) (wf_iff b hb) hk hda hdb hna hnb hr ((eq_iff_index a b).1 h)
-  simp only [key, Key.mk.injEq] at hkey
-  obtain ⟨_, _, e3, e4, e5, e6⟩ := hkey
-  simp [hashKey, packed, rdBits, e3, e4, e5, e6, hl]
-
-/-- F15: IPv6 `1:2:3:4::/72` without path-id, and `6c65:6448:1:2:3:4::/98` with path-id
-    `0x64697361` (`b'disa'`). -/
-def f15a : IpNlri := ⟨.inet, 2, 1, none, [], none, 72, [0, 1, 0, 2, 0, 3, 0, 4, 0]⟩
-def f15b : IpNlri :=
-  ⟨.inet, 2, 1, some disa, [], none, 98, [108, 101, 100, 72, 0, 1, 0, 2, 0, 3, 0, 4, 0]⟩
-
-/-- **FINDING F15 (INET): two different routes with one index** — and therefore `==`, the same
-    hash key and the same `Route.index()`. -/
-theorem index_collision :
-    wf f15a = true ∧ wf f15b = true ∧ f15a.kind = f15b.kind ∧ key f15a ≠ key f15b
-    ∧ index f15a = index f15b ∧ nlriEq f15a f15b = true ∧ hashKey f15a = hashKey f15b
-    ∧ routeIndex f15a = routeIndex f15b := by decide
-
-/-- Label: path-id 0.0.0.0 (`b'no-pi'`) `1:2:3:4:5:6::/100` against path-id `b'no-p'`
-    `6400:100:200:300:400:500:600:0/105`. -/
-def nopiA : IpNlri := ⟨.label, 2, 4, some [0, 0, 0, 0], [], none, 100, [0, 1, 0, 2, 0, 3, 0, 4, 0, 5, 0, 6, 0]⟩
-def nopiB : IpNlri := ⟨.label, 2, 4, some nop, [], none, 105, [100, 0, 1, 0, 2, 0, 3, 0, 4, 0, 5, 0, 6, 0]⟩
-
-/-- **FINDING (Label / IPVPN): the second sentinel `b'no-pi'` is ambiguous in the same way.** -/
-theorem index_collision_nopi :
-    wf nopiA = true ∧ wf nopiB = true ∧ nopiA.kind = nopiB.kind ∧ key nopiA ≠ key nopiB
-    ∧ index nopiA = index nopiB := by decide
-
-/-- IPVPN built without an RD (`from_cidr(..., rd=None)`): `1:2:3:4::/72` against RD `0.2.0.3:4`
-    with `::/8`. -/
-def rdA : IpNlri := ⟨.vpn, 2, 128, none, [], none, 72, [0, 1, 0, 2, 0, 3, 0, 4, 0]⟩
-def rdB : IpNlri := ⟨.vpn, 2, 128, none, [], some [0, 1, 0, 2, 0, 3, 0, 4], 8, [0]⟩
-
-/-- **FINDING (IPVPN): the RD is not delimited** — the mask byte counts the RD bits but nothing
-    says whether an RD follows (only reachable through the factories: the decoder always reads one). -/
-theorem index_collision_rd :
-    wf rdA = true ∧ wf rdB = true ∧ rdA.kind = rdB.kind ∧ key rdA ≠ key rdB ∧ index rdA = index rdB := by decide
-
-/-- **The full statement `index_injective` is false of the code.**
-    (Full statement: `∀ a b, wf a → wf b → a.kind = b.kind → index a = index b → key a = key b`.) -/
-theorem index_not_injective :
-    ¬ (∀ a b : IpNlri, wf a = true → wf b = true → a.kind = b.kind → index a = index b → key a = key b) := by
-  intro h
-  have c := index_collision
-  exact c.2.2.2.1 (h f15a f15b c.1 c.2.1 c.2.2.1 c.2.2.2.2.1)
-
-/-- **`index_injective_partial`: routes that differ in family, path identifier, prefix or RD never
-    share an index — provided neither path identifier is `b'disa'` or `b'no-p'` and the RD is
-    present on both sides or on neither.** These are exactly the side conditions the proof forces
-    (each one is tight: `index_collision`, `index_collision_nopi`, `index_collision_rd`). All
-    families, any mask, any prefix bytes, any label stack. -/
-theorem index_injective_partial (a b : IpNlri) (ha : wf a = true) (hb : wf b = true) (hk : a.kind = b.kind)
-    (hda : a.path ≠ some disa) (hdb : b.path ≠ some disa) (hna : a.path ≠ some nop) (hnb : b.path ≠ some nop)
-    (hr : a.rd.isSome = b.rd.isSome) (h : index a = index b) : key a = key b :=
-  index_key a b (wf_iff a ha) (wf_iff b hb) hk hda hdb hna hnb hr h
-
-/-- **IPv4 (mask ≤ 32): no condition on the path identifiers** — the byte after a 4-byte path-id
-    is the mask byte, which can then never be `b` (98) or `i` (105). -/
-theorem index_injective_ipv4 (a b : IpNlri) (ha : wf a = true) (hb : wf b = true) (hk : a.kind = b.kind)
-    (hma : a.mask ≤ 32) (hmb : b.mask ≤ 32) (hr : a.rd.isSome = b.rd.isSome) (h : index a = index b) :
-    key a = key b :=
-  index_key_small a b (wf_iff a ha) (wf_iff b hb) hk hma hmb hr h
-
-/-- The same for `Route.index()` (the RIB key), which only prepends the family once more. -/
-theorem route_index_injective_partial (a b : IpNlri) (ha : wf a = true) (hb : wf b = true) (hk : a.kind = b.kind)
-    (hda : a.path ≠ some disa) (hdb : b.path ≠ some disa) (hna : a.path ≠ some nop) (hnb : b.path ≠ some nop)
-    (hr : a.rd.isSome = b.rd.isSome) (h : routeIndex a = routeIndex b) : key a = key b := by
-  have wa := wf_iff a ha
-  have wb := wf_iff b hb
-  unfold routeIndex at h
-  exact index_key a b wa wb hk hda hdb hna hnb hr (fam_split wa.afi wa.safi wb.afi wb.safi h).2.2
-
-/-- **The repaired encoding is injective with no side condition** (an explicit path-id is introduced
-    by `b'path'`, which makes the three tags a prefix-free code, and IPVPN says whether an RD
-    follows; proposed_fixes/F15-index-collision.md). -/
-theorem index_fixed_injective (a b : IpNlri) (ha : wf a = true) (hb : wf b = true) (hk : a.kind = b.kind)
-    (h : indexFix a = indexFix b) : key a = key b :=
-  indexFix_key a b (wf_iff a ha) (wf_iff b hb) hk h
-
-/-- The repaired `__hash__` (`hash(self.index())`) respects `==` by construction, and the three
-    collision pairs are told apart. -/
-theorem index_fixed_separates :
-    indexFix f15a ≠ indexFix f15b ∧ indexFix nopiA ≠ indexFix nopiB ∧ indexFix rdA ≠ indexFix rdB
-    ∧ indexFix labA = indexFix labB ∧ hashKeyFix labA = hashKeyFix labB := by decide
+example : wf f15a = true ∧ wf f15b = true ∧ key f15a ≠ key f15b
+    ∧ indexOld f15a = indexOld f15b ∧ index f15a ≠ index f15b ∧ routeIndex f15a ≠ routeIndex f15b := by decide
+example : wf nopiA = true ∧ wf nopiB = true ∧ key nopiA ≠ key nopiB
+    ∧ indexOld nopiA = indexOld nopiB ∧ index nopiA ≠ index nopiB := by decide
+example : wf rdA = true ∧ wf rdB = true ∧ key rdA ≠ key rdB
+    ∧ indexOld rdA = indexOld rdB ∧ index rdA ≠ index rdB := by decide
+-- same route, another label: one index, and now one hash (the old hash covered the labels)
+example : wf labA = true ∧ wf labB = true ∧ key labA = key labB ∧ index labA = index labB
+    ∧ hashKeyOld labA ≠ hashKeyOld labB ∧ hashKey labA = hashKey labB := by decide
 
 /-! ## Framing of one NLRI, every registered family -/
 
@@ -323,9 +280,10 @@ example : (Nlri.rtc 96 (List.replicate 12 1)).ok ⟨1, 132, false⟩ := by simp 
 example : Canonical .flow ⟨1, 133, false⟩ [3, 1, 8, 10] := by simp [Canonical]; decide
 example : (split .flow ⟨1, 133, false⟩ [3, 1, 8, 10]).map (·.stored) = some [1, 8, 10] := by decide
 example : kindOfFamily 25 70 = some .typeLen8 ∧ kindOfFamily 16388 72 = some .type16Len16 ∧ kindOfFamily 3 1 = none := by decide
--- the partial injectivity theorem applies to ordinary routes: 10.0.0.0/24 with path-id 1 and 2
+-- ordinary routes: 10.0.0.0/24 with path-id 1 and 2
 example : wf ⟨.inet, 1, 1, some [0, 0, 0, 1], [], none, 24, [10, 0, 0]⟩ = true
     ∧ index ⟨.inet, 1, 1, some [0, 0, 0, 1], [], none, 24, [10, 0, 0]⟩ ≠ index ⟨.inet, 1, 1, some [0, 0, 0, 2], [], none, 24, [10, 0, 0]⟩ := by decide
 example : index f15a = [48, 50, 48, 49] ++ disabled ++ [72, 0, 1, 0, 2, 0, 3, 0, 4, 0] := by decide
+example : index f15b = [48, 50, 48, 49] ++ pathWord ++ disa ++ [98, 108, 101, 100, 72, 0, 1, 0, 2, 0, 3, 0, 4, 0] := by decide
 
 end Exa.Props.C15
